@@ -1,0 +1,64 @@
+//go:build verif
+
+// Round 3 contracts for nsq_to_file (C19): the topic discoverer's main loop and the filename template. Comment-only file.
+// Assumed library contracts and ghost observers: .trusted/hfile.spec.
+
+package main
+
+// run: the select loop of the discoverer. SIGHUP (rotation request) is forwarded to EVERY logger (map-range completeness);
+// the loop is left only on SIGTERM, and run returns only after waiting for all router goroutines (wg.Wait).
+// Nothing is written, acknowledged, renamed or opened here.
+//@ func (t *TopicDiscoverer) run()
+//@   props C19
+//@   requires t != nil && t.opts != nil && t.topics != nil && t.ci != nil
+//@   requires[loggers-exist] forall k string :: {t.topics[k]} has(t.topics, k) ==> t.topics[k] != nil
+// main() makes two channels, one per signal kind
+//@   requires[distinct-signal-channels] t.hupChan != t.termChan
+//@   ensures[waits-for-all-loggers] r3dWgWaits == old(r3dWgWaits) + 1 && r3dWgWaited == &t.wg
+//@   ensures[returns-only-on-term] recvd(t.termChan) == old(recvd(t.termChan)) + 1
+//@   ensures[hup-forwarded-to-every-logger] forall k string :: {t.topics[k]} old(has(t.topics, k)) ==> sent(t.topics[k].hupChan) >= old(sent(t.topics[k].hupChan)) + recvd(t.hupChan) - old(recvd(t.hupChan))
+// new topics get a logger: the configured topics (--topic) have one from the first pass on, unless a constructor failed
+//@   ensures[configured-topics-get-loggers] t.opts.TopicPattern == "" && r3dCtorFails == old(r3dCtorFails) ==> (forall i int :: {t.opts.Topics[i]} 0 <= i && i < len(t.opts.Topics) ==> has(t.topics, t.opts.Topics[i]) && t.topics[t.opts.Topics[i]] != nil)
+//@   ensures[loggers-kept] forall k string :: {t.topics[k]} old(has(t.topics, k)) ==> has(t.topics, k) && t.topics[k] == old(t.topics[k])
+//@   ensures[no-ack-no-write] hFinishes == old(hFinishes) && wCalls == old(wCalls) && hRenames == old(hRenames) && hOpens == old(hOpens)
+//@   modifies mapof(t.topics), r3dWgAdds, r3dWgWaits, r3dWgWaited, r3dCtorFails
+//@   loop 0
+//@     invariant[configured-topics-get-loggers] t.opts.TopicPattern == "" && r3dCtorFails == old(r3dCtorFails) ==> (forall i int :: {t.opts.Topics[i]} 0 <= i && i < len(t.opts.Topics) ==> has(t.topics, t.opts.Topics[i]) && t.topics[t.opts.Topics[i]] != nil)
+//@     invariant[ctor-fails-grow] r3dCtorFails >= old(r3dCtorFails) && t.opts == old(t.opts) && t.opts.Topics == old(t.opts.Topics) && t.opts.TopicPattern == old(t.opts.TopicPattern)
+//@     invariant[hup-forwarded-to-every-logger] forall k string :: {t.topics[k]} old(has(t.topics, k)) ==> sent(t.topics[k].hupChan) >= old(sent(t.topics[k].hupChan)) + recvd(t.hupChan) - old(recvd(t.hupChan))
+//@     invariant[loggers-kept] forall k string :: {t.topics[k]} old(has(t.topics, k)) ==> has(t.topics, k) && t.topics[k] == old(t.topics[k])
+//@     invariant[loggers-exist] forall k string :: {t.topics[k]} has(t.topics, k) ==> t.topics[k] != nil
+//@     invariant[not-yet-terminated] recvd(t.termChan) == old(recvd(t.termChan)) && r3dWgWaits == old(r3dWgWaits)
+//@     invariant[no-ack-no-write] hFinishes == old(hFinishes) && wCalls == old(wCalls) && hRenames == old(hRenames) && hOpens == old(hOpens)
+//@   loop 1
+//@     invariant[configured-topics-get-loggers] t.opts.TopicPattern == "" && r3dCtorFails == old(r3dCtorFails) ==> (forall i int :: {t.opts.Topics[i]} 0 <= i && i < len(t.opts.Topics) ==> has(t.topics, t.opts.Topics[i]) && t.topics[t.opts.Topics[i]] != nil)
+//@     invariant[ctor-fails-grow] r3dCtorFails >= old(r3dCtorFails) && t.opts == old(t.opts) && t.opts.Topics == old(t.opts.Topics) && t.opts.TopicPattern == old(t.opts.TopicPattern)
+//@     invariant[loggers-kept] forall k string :: {t.topics[k]} old(has(t.topics, k)) ==> has(t.topics, k) && t.topics[k] == old(t.topics[k])
+//@     invariant[loggers-exist] forall k string :: {t.topics[k]} has(t.topics, k) ==> t.topics[k] != nil
+//@     invariant[hups-so-far] forall k string :: {t.topics[k]} old(has(t.topics, k)) ==> sent(t.topics[k].hupChan) >= old(sent(t.topics[k].hupChan)) + recvd(t.hupChan) - old(recvd(t.hupChan))
+//@     invariant[terminated] recvd(t.termChan) == old(recvd(t.termChan)) + 1 && r3dWgWaits == old(r3dWgWaits)
+//@     invariant[no-ack-no-write] hFinishes == old(hFinishes) && wCalls == old(wCalls) && hRenames == old(hRenames) && hOpens == old(hOpens)
+//@   loop 2
+//@     invariant[configured-topics-get-loggers] t.opts.TopicPattern == "" && r3dCtorFails == old(r3dCtorFails) ==> (forall i int :: {t.opts.Topics[i]} 0 <= i && i < len(t.opts.Topics) ==> has(t.topics, t.opts.Topics[i]) && t.topics[t.opts.Topics[i]] != nil)
+//@     invariant[ctor-fails-grow] r3dCtorFails >= old(r3dCtorFails) && t.opts == old(t.opts) && t.opts.Topics == old(t.opts.Topics) && t.opts.TopicPattern == old(t.opts.TopicPattern)
+//@     invariant[loggers-kept] forall k string :: {t.topics[k]} old(has(t.topics, k)) ==> has(t.topics, k) && t.topics[k] == old(t.topics[k])
+//@     invariant[loggers-exist] forall k string :: {t.topics[k]} has(t.topics, k) ==> t.topics[k] != nil
+//@     invariant[visited-got-the-hup] forall k string :: {t.topics[k]} old(has(t.topics, k)) ==> sent(t.topics[k].hupChan) >= old(sent(t.topics[k].hupChan)) + recvd(t.hupChan) - old(recvd(t.hupChan)) - (visited(k) ? 0 : 1)
+//@     invariant[not-yet-terminated] recvd(t.termChan) == old(recvd(t.termChan)) && r3dWgWaits == old(r3dWgWaits)
+//@     invariant[no-ack-no-write] hFinishes == old(hFinishes) && wCalls == old(wCalls) && hRenames == old(hRenames) && hOpens == old(hOpens)
+
+// computeFilenameFormat: whenever file names can collide with existing files - gzip (no append), rotation by size or interval,
+// or a work dir whose finished files are moved into the output dir - the template that comes back still contains the <REV>
+// placeholder, which updateFile / Close bump until an unused name is found; a --filename-format without it is refused.
+// (Without <REV> the retry loops of updateFile / Close would try the same name forever: the file would never be handed off.)
+// A fact about strings (package-scoped axiom): appending a suffix keeps every occurrence of a substring (`cff + ".gz"`).
+//@ axiom r3dContainsAppend: forall a string, b string, x string :: {r3dContains(a + b, x)} r3dContains(a, x) ==> r3dContains(a + b, x)
+//@ pred r3dNeedsRev(opts *Options) := (opts.GZIP || opts.RotateSize > 0 || opts.RotateInterval > 0 || opts.WorkDir != opts.OutputDir)
+//@ func computeFilenameFormat(opts *Options, topic string) (string, error)
+//@   props C19
+//@   requires opts != nil
+//@   ensures[rev-required-when-names-can-collide] r3dNeedsRev(opts) && result1 == nil ==> r3dContains(result0, "<REV>")
+//@   ensures[missing-rev-refused] r3dNeedsRev(opts) && !r3dContains(opts.FilenameFormat, "<REV>") ==> result1 != nil
+//@   ensures[options-untouched] opts.FilenameFormat == old(opts.FilenameFormat) && opts.GZIP == old(opts.GZIP)
+//@   modifies
+//@   nochan
